@@ -1,6 +1,7 @@
 package main
 
 import (
+	"os"
 	"fmt"
 	"go/ast"
 	"go/constant"
@@ -818,6 +819,16 @@ func (iv *Inv) discharge(s invSite, reach map[*ssa.Function]*ssa.Function) {
 	}
 	if reason, isVetted := iv.vetted[key]; isVetted {
 		iv.used[key] = true
+		// a vetted argument is about one particular operand: the entry stops applying when the operand changes
+		if fp := operandFingerprint(s); fp != "" {
+			if os.Getenv("C4E_DEBUG") != "" {
+				fmt.Printf("FP\t%q: %q,\n", key, fp)
+			}
+			if want, has := vettedOperands[key]; has && want != fp {
+				iv.r.Bad(iv.rule, key, pos, "the vetted argument for this operation was made for the operand "+want+"; the operand is now "+fp+" and nothing discharges it; reached via "+PathTo(reach, s.fn))
+				return
+			}
+		}
 		iv.r.Assume(iv.rule, key, pos, "vetted: "+reason)
 		return
 	}
@@ -1947,4 +1958,37 @@ func (iv *Inv) Discover(roots []*ssa.Function, rule, label string) {
 			iv.r.Enum(rule, label+": callee "+shortCallee(n), where[n], seen[n])
 		}
 	}
+}
+
+// operandFingerprint renders the operand a numeric vetting argument is about: the divisor of a division, the
+// receiver of Int64(). Empty for classes whose vetting is not about one operand.
+func operandFingerprint(s invSite) string {
+	switch s.class {
+	case "quo":
+		if c, ok := s.instr.(ssa.CallInstruction); ok {
+			a := c.Common().Args
+			if len(a) > 0 {
+				return renderVal(a[len(a)-1], 0)
+			}
+		}
+	case "intdiv":
+		if b, ok := s.instr.(*ssa.BinOp); ok {
+			return renderVal(b.Y, 0)
+		}
+	case "int64":
+		if c, ok := s.instr.(ssa.CallInstruction); ok {
+			a := c.Common().Args
+			if len(a) > 0 {
+				return renderVal(a[0], 0)
+			}
+		}
+	}
+	return ""
+}
+
+// vettedOperands: the operand each numeric vetted entry was written for (see operandFingerprint).
+var vettedOperands = map[string]string{
+	"quo @ x/cfeminter/types.LinearMinting.AmountToMint : sdk/types.Dec.QuoInt64":       "(time.Time.UnixMilli(<*time.Time>) - time.Time.UnixMilli(<time.Time>))",
+	"quo @ x/cfeminter/types.LinearMinting.CalculateInflation : sdk/types.Dec.QuoInt64": "time.Time.Sub(<*time.Time>,<time.Time>)",
+	"quo @ x/cfevesting/keeper.Keeper.UnlockUnbondedContinuousVestingAccountCoins : sdk/types.Dec.Quo": "types.NewDecFromInt(types.Coins.AmountOf(types.ContinuousVestingAccount.GetVestingCoins(types.AccountKeeper.GetAccount(…,…,…).(*sdk/x/auth/vesting/types.ContinuousVestingAccount)#0,types.Context.BlockTime(<sdk/types.Context>)),<*sdk/types.Coin>.Denom))",
 }
